@@ -1,1 +1,27 @@
-"""stubs"""
+"""net/url and net/http boundary."""
+import z3
+from ..core import (STUBS, INVOKE_STUBS, FRESH_HOOKS, LAZY_HOOKS, IFACE_CANDS, stub, GoPanic, Inconclusive, zint, zstr, b_and, b_or, b_not, is_sym)
+from ..values import *
+
+
+def url_string_of(I, v):
+    ctx = I.ctx
+    if isinstance(v, GStructV) and 'str' in v.ghost:
+        return v.ghost['str']
+    # uninterpreted function of the fields that String() reads
+    names = [f['n'] for f in I.prog.fields('net/url.URL')]
+    parts = []
+    for n, x in zip(names, v):
+        x = ctx.force(x) if not isinstance(x, Lazy) else None
+        if isinstance(x, str) or (is_sym(x) and z3.is_string(x)):
+            parts.append(zstr(x))
+    f = z3.Function('url.String', *([z3.StringSort()] * len(parts) + [z3.StringSort()]))
+    return f(*parts)
+
+
+@stub('(*net/url.URL).String')
+def url_string(I, args, ins):
+    p = I.ctx.force(args[0])
+    if p is None:
+        raise GoPanic('nil-deref', I.ctx.cur_pos)
+    return url_string_of(I, I.ctx.load(p))
